@@ -57,6 +57,10 @@ EXPLANATION += (
     'fancy-indexed store (R-IDIOM/pointer-scatter).'
 )
 
+EXPLANATION += (
+    ' Round 5: sorted reads are put back with the matching permutation, not indexed with it a second time, and before every return (R-PERM); settings are forwarded (R-FWD).'
+)
+
 RULE_TEXT = (
     "one obligation per (dispatcher, encoding member), per arm-"
     "distinctness relation, per cursor relation, per range step / slice "
@@ -99,6 +103,10 @@ def check(ctx):
     from .C13 import check_index_spaces
     check_index_spaces(ctx)
     sweep_generic_rules(ctx, ANCHOR_MODULES)
+    # settings this property depends on are handed down every call
+    # chain, never left to a callee's default (sa/rules/forwarding.py)
+    from ..rules.forwarding import check_forwarding
+    check_forwarding(ctx, {'layer', 'max_gb', 'row_chunk_size', 'chunk_size', 'keep_open'})
 
 
 def check_dispatch(ctx, dispatchers, rule='R-EXH/encoding'):
@@ -294,6 +302,9 @@ def sweep_generic_rules(ctx, anchored_modules):
     from ..rules.scatter import check_pointer_scatter
     from ..rules.nodekeys import (check_node_keys, check_memo_keys,
                                   check_zip_alignment)
+    from ..rules.idioms import check_shared_mutable
+    from ..rules.capacity import check_index_dtype
+    from ..rules.perm import check_sorted_results_unsorted
     n = 0
     with ctx.advisory_scope():
         for fi in ctx.db.iter_functions():
@@ -312,6 +323,9 @@ def sweep_generic_rules(ctx, anchored_modules):
                 n += check_node_keys(ctx, fi)
                 n += check_memo_keys(ctx, fi)
                 n += check_zip_alignment(ctx, fi)
+                n += check_shared_mutable(ctx, fi)
+                n += check_index_dtype(ctx, fi)
+                n += check_sorted_results_unsorted(ctx, fi)
             except AnalysisError:
                 continue
     ctx.note(f'thorough sweep: generic structural rules evaluated on {n} '
@@ -321,12 +335,14 @@ def sweep_generic_rules(ctx, anchored_modules):
 def check_unsort(ctx, rule='R-PERM/unsort-pair'):
     """row batches read in sorted order are put back with the matching
     permutation (sa/rules/perm.py)"""
-    from ..rules.perm import check_unsort_pairs
+    from ..rules.perm import (check_unsort_pairs,
+                              check_sorted_results_unsorted)
     n = 0
     for fi in ctx.db.iter_functions():
         if fi.module.short in ('anndata_iterator.anndata_iterator',
                                'utils.sparse_utils'):
             n += check_unsort_pairs(ctx, fi, rule)
+            n += check_sorted_results_unsorted(ctx, fi)
     if n < 1:
         raise AnalysisError('no sort / un-sort pair found in the row '
                             'batch readers')
